@@ -638,8 +638,18 @@ static int32 pkcs12import(psPool_t *pool, const unsigned char **buf,
         return PS_PARSE_FAIL;
     }
 
-    if (tmplen < 1 || (uint32) (end - p) < tmplen)
+    /* The block ciphers below (3DES, RC2: 8-byte blocks) process whole
+       blocks only: with any other length they would run over the end of
+       both the ciphertext and the plaintext buffer. */
+    if (tmplen < 1 || (uint32) (end - p) < tmplen ||
+        (tmplen % DES3_BLOCKLEN) != 0)
     {
+        if (decryptKey)
+        {
+            memset_s(decryptKey, keyLen, 0x0, keyLen);
+            psFree(decryptKey, pool);
+        }
+        psFree(iv, pool);
         return PS_PARSE_FAIL;
     }
 
